@@ -59,10 +59,12 @@ Grow(a, e) ==
     /\ hist' = Append(hist, [op |-> "grow", arch |-> a, e |-> e])
     /\ UNCHANGED <<objs, results>>
 
-SNext == /\ Len(hist) < MaxHist
-         /\ \/ \E o \in ObjIds, fam \in {"rule", "layer", "diagram"} : \E cfg \in Cfgs(fam) : New(o, fam, cfg)
-            \/ \E o \in ObjIds, a \in 1..MaxArchs : Apply(o, a)
-            \/ \E a \in 1..MaxArchs, e \in Cand : Grow(a, e)
+\* one named action per public call (TLC's coverage report then shows that each kind was exercised)
+Room    == Len(hist) < MaxHist
+DoNew   == Room /\ \E o \in ObjIds, fam \in {"rule", "layer", "diagram"} : \E cfg \in Cfgs(fam) : New(o, fam, cfg)
+DoApply == Room /\ \E o \in ObjIds, a \in 1..MaxArchs : Apply(o, a)
+DoGrow  == Room /\ \E a \in 1..MaxArchs, e \in Cand : Grow(a, e)
+SNext == DoNew \/ DoApply \/ DoGrow
 SSpec == SInit /\ [][SNext]_svars
 
 \* C15
